@@ -25,6 +25,7 @@ impl Env {
             .env("MONGODB_URI", stub.uri())
             .env("VERIF_TASK_DELAY_MS", delay)
             .env("RUST_BACKTRACE", "0")
+            .envs(rust_log_setting())
             .stdin(Stdio::null())
             .stdout(Stdio::null())
             .stderr(Stdio::from(log))
@@ -77,5 +78,17 @@ impl Env {
 impl Drop for Env {
     fn drop(&mut self) {
         self.stop();
+    }
+}
+
+/// the environment the service is deployed in is not the service's business: a quarter of the shards each run
+/// their server processes with RUST_LOG unset, `info`, `warn`, `debug` (VERIF_SERVER_RUST_LOG, set by main from seed
+/// and shard number and counted in the evidence); no answer may depend on it
+fn rust_log_setting() -> Vec<(&'static str, &'static str)> {
+    match std::env::var("VERIF_SERVER_RUST_LOG").ok().as_deref() {
+        Some("info") => vec![("RUST_LOG", "info")],
+        Some("warn") => vec![("RUST_LOG", "warn")],
+        Some("debug") => vec![("RUST_LOG", "debug")],
+        _ => Vec::new(),
     }
 }
